@@ -273,4 +273,85 @@ theorem startFormatRead_textF (D : Desc) (s : St) (f : Fsm) (hb : BufLen D s f) 
     · have := k1.1.trans hc0; simpa [setStateRL, St.cmdOf] using this
     · simpa [BufLen, BufOkU, setStateRL] using t1.2
 
+theorem printResponseTest_eqF (D : Desc) (s : St) (f : Fsm) (hc : (s.cmdOf f).isSome = true) :
+    printResponseTest D s f =
+      (let r := match (D.cmdD (s.cmdOf f)).desc with
+         | some d => printAll D s f [nlStr s, d]
+         | none => (s, true)
+       if !r.2 then (r.1, false)
+       else if (D.cmdD (s.cmdOf f)).hasTest then (setStateTL r.1 f, true)
+       else (startFlush r.1 f .ok, true)) := by
+  unfold printResponseTest
+  simp only [St.chkUb, hc, if_true]
+  cases (D.cmdD (s.cmdOf f)).desc <;> rfl
+
+/-- TEST of a command without variables, either machine: the text the test handler is first called with -/
+theorem startFormatTest_textF (D : Desc) (s : St) (f : Fsm) (hb : BufLen D s f) (hc : (s.cmdOf f).isSome = true)
+    (hv : ((D.cmdD (s.cmdOf f)).vars.isSome && decide ((D.cmdD (s.cmdOf f)).varNum > 0)) = false)
+    (ht : (D.cmdD (s.cmdOf f)).hasTest = true)
+    (hfit : (testText (D.cmdD (s.cmdOf f)) (nlStr s)).length < D.capOf f) :
+    TxtF D (startFormatTest D s f) f (testText (D.cmdD (s.cmdOf f)) (nlStr s)) ∧
+    (startFormatTest D s f).cmdOf f = s.cmdOf f ∧ BufLen D (startFormatTest D s f) f ∧
+    (match f with | .cmd => (startFormatTest D s f).state = .testLoop | .uns => (startFormatTest D s f).ustate = .testLoop) := by
+  unfold startFormatTest
+  generalize hs0 : s.setPos f 0 = s0
+  have fr := setPos_frame s f 0
+  have hb0 : BufLen D s0 f := by rw [← hs0]; exact hb.congr fr.2.2.1
+  have hc0 : s0.cmdOf f = s.cmdOf f := by
+    rw [← hs0]; cases f <;> simp [St.setPos, St.cmdOf]
+  have hcr0 : s0.crFlag = s.crFlag := by rw [← hs0]; cases f <;> simp [St.setPos]
+  have hp0 : PreF D s0 f [] := ⟨by rw [← hs0]; exact setPos_pos s f 0, Nat.zero_le _, fun i hi => by simp at hi⟩
+  obtain ⟨c, hcd⟩ : ∃ c, D.cmdD (s.cmdOf f) = c := ⟨_, rfl⟩
+  rw [hcd] at hv ht hfit
+  simp only [St.chkUb, hc0, hc, if_true, hcd]
+  have hlen : (c.name ++ [61]).length ≤ (testText c (nlStr s)).length := by
+    unfold testText; simp only [List.length_append]; omega
+  have ok1 : (printAll D s0 f [c.name, [61]]).2 = true := printAll_fitsF _ s0 [] hb0 hp0 (by simp at hlen ⊢; omega)
+  have t1 := printAll_txtF [c.name, [61]] s0 [] hb0 hp0 ok1 (by simp)
+  have k1 := printAll_keepF D f [c.name, [61]] s0
+  rcases hr1 : printAll D s0 f [c.name, [61]] with ⟨s1, o1⟩
+  rw [hr1] at ok1 t1 k1
+  simp only at ok1 t1 k1
+  subst ok1
+  simp only [Bool.not_true, Bool.false_eq_true, if_false, hv]
+  have hc1 : (s1.cmdOf f).isSome = true := by rw [k1.1, hc0]; exact hc
+  have hcd1 : D.cmdD (s1.cmdOf f) = c := by rw [k1.1, hc0]; exact hcd
+  rw [printResponseTest_eqF D s1 f hc1]
+  simp only [hcd1]
+  have hnl : nlStr s1 = nlStr s := by simp only [nlStr, k1.2, hcr0]
+  -- the state after the description (or without one)
+  have key : ∃ s2, (match c.desc with | some d => printAll D s1 f [nlStr s1, d] | none => (s1, true)) = (s2, true) ∧
+      TxtF D s2 f (testText c (nlStr s)) ∧ s2.cmdOf f = s.cmdOf f ∧ BufLen D s2 f := by
+    cases hd : c.desc with
+    | none =>
+      refine ⟨s1, rfl, ?_, k1.1.trans hc0, t1.2⟩
+      have := t1.1
+      simpa [testText, hd] using this
+    | some d =>
+      have hfit2 : (testText c (nlStr s)).length = (c.name ++ [61]).length + ([nlStr s1, d] : List (List Byte)).flatten.length := by
+        simp [testText, hd, hnl]; omega
+      have ok2 : (printAll D s1 f [nlStr s1, d]).2 = true :=
+        printAll_fitsF _ s1 _ t1.2 (by simpa using t1.1.pre) (by rw [← hfit2]; exact hfit)
+      have t2 := printAll_txtF [nlStr s1, d] s1 _ t1.2 (by simpa using t1.1.pre) ok2 (by simp)
+      have k2 := printAll_keepF D f [nlStr s1, d] s1
+      rcases hr2 : printAll D s1 f [nlStr s1, d] with ⟨s2, o2⟩
+      rw [hr2] at ok2 t2 k2
+      simp only at ok2 t2 k2
+      subst ok2
+      refine ⟨s2, hr2, ?_, k2.1.trans (k1.1.trans hc0), t2.2⟩
+      have := t2.1
+      simpa [testText, hd, hnl, List.append_assoc] using this
+  obtain ⟨s2, e2, tx, hcm, hbl⟩ := key
+  simp only [e2, Bool.not_true, Bool.false_eq_true, if_false, ht, if_true]
+  cases f
+  · refine ⟨?_, ?_, ?_, rfl⟩
+    · simpa [TxtF, setStateTL, St.pos, getB] using tx
+    · simpa [setStateTL, St.cmdOf] using hcm
+    · simpa [BufLen, setStateTL] using hbl
+  · refine ⟨?_, ?_, ?_, rfl⟩
+    · simpa [TxtF, setStateTL, St.pos, getB] using tx
+    · simpa [setStateTL, St.cmdOf] using hcm
+    · simpa [BufLen, BufOkU, setStateTL] using hbl
+
+
 end Cat
